@@ -48,7 +48,7 @@
 #include "rng.h"
 
 #define NSRC 20
-#define NDST 5
+#define NDST 6
 #define NGLYPH 6
 #define NPARAM 12
 #define MAXT 16
@@ -72,8 +72,12 @@ static FILE *steps_out;
 static pthread_barrier_t barrier;
 static int use_barrier; static unsigned yield_mask;
 
-static const pixman_format_code_t DFMT[NDST] = { PIXMAN_a8r8g8b8, PIXMAN_x8r8g8b8, PIXMAN_r5g6b5, PIXMAN_a8, PIXMAN_a8r8g8b8 };
-static const int DW[NDST] = { 48, 48, 40, 56, 176 }, DH[NDST] = { 40, 40, 32, 40, 144 };
+static const pixman_format_code_t DFMT[NDST] = { PIXMAN_a8r8g8b8, PIXMAN_x8r8g8b8, PIXMAN_r5g6b5, PIXMAN_a8, PIXMAN_a8r8g8b8, PIXMAN_r8g8b8 };
+static const int DW[NDST] = { 48, 48, 40, 56, 176, 44 }, DH[NDST] = { 40, 40, 32, 40, 144, 36 };
+/* The destinations of all threads with the same index live back to back in one allocation (no row padding, no gap):
+   distinct destinations in adjacent memory.  A store that reaches past a thread's own pixel storage lands in the next
+   thread's destination and is a data race with that thread's drawing (ThreadSanitizer) and a lost update (digests). */
+static uint8_t *ARENA[NDST];
 
 static uint64_t sm64(uint64_t *s){ uint64_t z=(*s+=0x9E3779B97F4A7C15ULL); z=(z^(z>>30))*0xBF58476D1CE4E5B9ULL; z=(z^(z>>27))*0x94D049BB133111EBULL; return z^(z>>31); }
 static uint64_t fnv(const void *p, size_t n, uint64_t h){ const uint8_t *b=p; for(size_t i=0;i<n;i++){ h^=b[i]; h*=0x100000001b3ULL; } return h; }
@@ -86,6 +90,8 @@ static uint32_t *rand_bits(size_t nbytes, uint64_t seed){
     for(size_t i=0;i<nbytes/4+1;i++){ uint32_t v=(uint32_t)sm64(&s); if(style==1) v|=0xff000000u; else if(style==2) v&=0x80ffffffu; else if(style==3 && (i&3)) v=0; b[i]=v; }
     return b;
 }
+static void fill_bits(uint32_t *b, size_t nbytes, uint64_t seed){ uint64_t s = seed; int style = (int)(sm64(&s)%6);
+    for(size_t i=0;i<nbytes/4;i++){ uint32_t v=(uint32_t)sm64(&s); if(style==1) v|=0xff000000u; else if(style==2) v&=0x80ffffffu; else if(style==3 && (i&3)) v=0; b[i]=v; } }
 static int stride_of(pixman_format_code_t f,int w){ return ((w*PIXMAN_FORMAT_BPP(f)+31)/32)*4; }
 
 static void fixed_scale(pixman_transform_t *t, int sx, int sy, int tx, int ty){
@@ -137,7 +143,7 @@ static void free_source(src_t *s){ if(s->img) pixman_image_unref(s->img); if(s->
 static void make_thread_state(int t){
     tstate_t *ts=&TS[t]; uint64_t base=PIXSEED*1000003ULL + (uint64_t)(t+1)*7919;
     for(int k=0;k<NSRC;k++) make_source(&ts->src[k],k,base+k);
-    for(int d=0;d<NDST;d++){ ts->dstride[d]=stride_of(DFMT[d],DW[d]); ts->dbytes[d]=(size_t)ts->dstride[d]*DH[d]; ts->dbits[d]=rand_bits(ts->dbytes[d],base+100+d);
+    for(int d=0;d<NDST;d++){ ts->dstride[d]=stride_of(DFMT[d],DW[d]); ts->dbytes[d]=(size_t)ts->dstride[d]*DH[d]; if(!ARENA[d]) ARENA[d]=malloc(ts->dbytes[d]*(size_t)T+16); ts->dbits[d]=(uint32_t*)(ARENA[d]+ts->dbytes[d]*(size_t)t); fill_bits(ts->dbits[d],ts->dbytes[d],base+100+d);
         ts->dst[d]=pixman_image_create_bits(DFMT[d],DW[d],DH[d],ts->dbits[d],ts->dstride[d]); }
     for(int i=0;i<4;i++) pixman_region32_init_rect(&ts->r32[i],i*5,i*3,20+i*7,15+i*4);
     for(int i=0;i<2;i++) pixman_region_init_rect(&ts->r16[i],i*6,i*2,30,20);
@@ -152,7 +158,7 @@ static void make_cache(tstate_t *ts){
 }
 static void free_thread_state(int t){ tstate_t *ts=&TS[t];
     for(int k=0;k<NSRC;k++) free_source(&ts->src[k]);
-    for(int d=0;d<NDST;d++){ pixman_image_unref(ts->dst[d]); free(ts->dbits[d]); }
+    for(int d=0;d<NDST;d++){ pixman_image_unref(ts->dst[d]); }
     for(int i=0;i<4;i++) pixman_region32_fini(&ts->r32[i]);
     for(int i=0;i<2;i++) pixman_region_fini(&ts->r16[i]);
     for(int g=0;g<NGLYPH;g++){ pixman_image_unref(ts->gimg[g]); free(ts->gbits[g]); } }
@@ -181,7 +187,10 @@ static uint64_t exec_req(tstate_t *ts, const req_t *r){
     case 0: { int d=((p[3]%NDST)+NDST)%NDST; src_t *s=sel_src(ts,p[1]), *m=sel_src(ts,p[2]);
         pixman_image_composite32(op_of(p[0]),s->img,m?m->img:NULL,ts->dst[d],p[4],p[5],p[6],p[7],p[8],p[9],p[10],p[11]);
         return dst_digest(ts,d); }
-    case 1: { int d=((p[0]%NDST)+NDST)%NDST; pixman_fill(ts->dbits[d],ts->dstride[d]/4,PIXMAN_FORMAT_BPP(DFMT[d]),p[1],p[2],p[3],p[4],(uint32_t)p[5]); return dst_digest(ts,d); }
+    case 1: { int d=((p[0]%NDST)+NDST)%NDST; /* pixman_fill does not clip: the caller passes a rectangle inside the image */
+        int fx1=p[1]<0?0:p[1], fy1=p[2]<0?0:p[2], fx2=p[1]+p[3], fy2=p[2]+p[4]; if(fx2>DW[d]) fx2=DW[d]; if(fy2>DH[d]) fy2=DH[d];
+        if(fx2<=fx1||fy2<=fy1) return dst_digest(ts,d);
+        pixman_fill(ts->dbits[d],ts->dstride[d]/4,PIXMAN_FORMAT_BPP(DFMT[d]),fx1,fy1,fx2-fx1,fy2-fy1,(uint32_t)p[5]); return dst_digest(ts,d); }
     case 2: { int d=((p[1]%NDST)+NDST)%NDST; pixman_color_t c={(uint16_t)p[2],(uint16_t)p[3],(uint16_t)p[4],(uint16_t)p[5]}; pixman_rectangle16_t rc[2]={{(int16_t)p[6],(int16_t)p[7],(uint16_t)p[8],(uint16_t)p[9]},{(int16_t)(p[6]+3),(int16_t)(p[7]+5),(uint16_t)p[9],(uint16_t)p[8]}};
         pixman_image_fill_rectangles(op_of(p[0]),ts->dst[d],&c,2,rc); return dst_digest(ts,d); }
     case 3: { int a=p[1]&3,b=p[2]&3,d=p[3]&3; pixman_region32_t *A=&ts->r32[a],*B=&ts->r32[b],*D=&ts->r32[d];
@@ -314,6 +323,11 @@ static void gen_req(FILE *o,int t,int variant){
         p[3]=rng_n(NDST); p[4]=rng_range(-6,20); p[5]=rng_range(-6,20); p[6]=rng_range(-4,12); p[7]=rng_range(-4,12); p[8]=rng_range(-6,36); p[9]=rng_range(-6,30); p[10]=rng_range(1,48); p[11]=rng_range(1,40);
         if(rng_chance(35)){ /* steer towards the fast paths: untransformed a8r8g8b8/x8r8g8b8/r5g6b5/solid sources, a8 or no mask */
             static const int fs[]={0,1,2,7}; p[1]=(p[1]/100)*100+fs[rng_n(4)]; if(p[2]>=0) p[2]=(p[2]/100)*100+3; p[4]=rng_n(4); p[5]=rng_n(4); p[6]=rng_n(4); p[7]=rng_n(4); p[0]=rng_chance(70)?3:(rng_chance(50)?1:12); }
+        if(rng_chance(22)){ /* corner-anchored fast-path requests: the rectangle ends on the last pixel of the last row, or starts on the
+               first pixel of the first row, of the destination (whose neighbours in memory are other threads' destinations) */
+            static const int fs[]={0,0,1,2,7,7}; int d=rng_chance(45)?5:rng_n(NDST), w=rng_range(1,32), h=rng_range(1,32), br=rng_chance(50);
+            p[3]=d; p[1]=(p[1]/100)*100+fs[rng_n(6)]; p[2]=rng_chance(50)?-1:((p[1]/100)*100+3); p[0]=rng_chance(70)?3:(rng_chance(50)?1:12);
+            p[8]=br?DW[d]-w:0; p[9]=br?DH[d]-h:0; p[4]=p[6]=rng_n(33-w); p[5]=p[7]=rng_n(33-h); p[10]=w; p[11]=h; }
         break;
     case 1: p[0]=rng_n(NDST); p[1]=rng_range(0,30); p[2]=rng_range(0,20); p[3]=rng_range(1,18); p[4]=rng_range(1,12); p[5]=(int)rng_u32(); break;
     case 2: p[0]=pick_op(); p[1]=rng_n(NDST); p[2]=rng_n(65536); p[3]=rng_n(65536); p[4]=rng_n(65536); p[5]=rng_chance(40)?65535:rng_n(65536); p[6]=rng_range(-4,30); p[7]=rng_range(-4,24); p[8]=rng_range(1,30); p[9]=rng_range(1,20); break;
@@ -373,6 +387,7 @@ int main(int argc,char **argv){
             for(int k=0;k<NSRC;k++) fprintf(o,"sharedstate %d %016llx %016llx\n",k,(unsigned long long)state_before[k],(unsigned long long)src_state(&shared[k])); }
         fclose(o); if(steps_out) fclose(steps_out);
         for(int t=0;t<T;t++) free_thread_state(t);
+        for(int d=0;d<NDST;d++){ free(ARENA[d]); ARENA[d]=NULL; }
         if(VARIANT!=0) for(int k=0;k<NSRC;k++) free_source(&shared[k]);
         return 0; }
     fprintf(stderr,"usage: threads gen <seed> <T> <n> <variant> <ops_out> | exec <ops> <impl_out> seq|par [steps_out]\n");
